@@ -15,6 +15,11 @@ From PV Require Import Model.AnnotationOps Proofs.DictP Proofs.AnnotationInvP Pr
 Theorem C11_rename_applies_mapping_once : forall a mapping s t,
   getitem (rename_labels_inplace a mapping) s t = option_map (fun l => map_get l mapping) (getitem a s t).
 Proof. exact rename_getitem. Qed.
+Theorem C11_empty_mapping_renames_nothing : forall a s t, getitem (rename_labels_inplace a []) s t = getitem a s t.
+Proof. exact rename_empty_mapping. Qed.
+Theorem C11_unmapped_labels_are_kept : forall a mapping s t l,
+  getitem a s t = Some l -> d_get l mapping = None -> getitem (rename_labels_inplace a mapping) s t = Some l.
+Proof. exact rename_unmapped_label_kept. Qed.
 Theorem C11_rename_changes_nothing_else : forall a mapping,
   skeys (a_tracks (rename_labels_inplace a mapping)) = skeys (a_tracks a) /\
   (forall s, get_tracks (rename_labels_inplace a mapping) s = get_tracks a s) /\
@@ -106,6 +111,8 @@ Print Assumptions C11_chain_not_applied_twice.
 Print Assumptions C11_rename_on_copy_gives_same_content.
 Print Assumptions C11_rename_in_place_keeps_views_fresh.
 Print Assumptions C11_subset_exact.
+Print Assumptions C11_empty_mapping_renames_nothing.
+Print Assumptions C11_unmapped_labels_are_kept.
 Print Assumptions C11_subset_label_request_is_a_set.
 Print Assumptions C11_subset_partition.
 Print Assumptions C11_subset_adds_nothing.
